@@ -15,6 +15,10 @@ from fractions import Fraction
 from . import scripted
 
 
+class HarnessError(Exception):
+    pass
+
+
 class ReplayDivergence(Exception):
     """The same prefix produced a different choice arity: the harness does not own all nondeterminism."""
 
@@ -28,6 +32,19 @@ class Violation(Exception):
 
 
 ARITY_CAP = 5000
+CURRENT_PID = ['C??']
+def library_exception(e, context=''):
+    """Violation for an exception that escaped from ixai code (harness exceptions are re-raised)."""
+    if isinstance(e, (Violation, HarnessError, ReplayDivergence)):
+        raise e
+    tb = traceback.extract_tb(e.__traceback__)
+    site = next((f"{f.filename.split('/ixai/')[-1]}:{f.lineno}" for f in reversed(tb) if '/ixai/' in f.filename), None)
+    if site is None:
+        raise e
+    return Violation(f"{CURRENT_PID[0]}/raised/{type(e).__name__}",
+                     f"the library raised {type(e).__name__}: {e} (at ixai/{site}) {context}", {})
+
+
 REACH_GRID = ((0.5, 0.05, 0.95), None)   # default answers of random.random(): reachability only
 
 
@@ -94,6 +111,18 @@ def execute(driver, prefix=(), float_policy=None, check_ownership=True, default_
         result = driver(run)
     except Violation as v:
         viol = v
+    except (ReplayDivergence, HarnessError):
+        raise
+    except Exception as e:
+        # an exception escaping from the library on a legal input / history: reported as a violation of the property
+        # under test (deterministic and replayable like any other); harness trouble has its own exception types
+        tb = traceback.extract_tb(e.__traceback__)
+        site = next((f"{f.filename.split('/ixai/')[-1]}:{f.lineno}" for f in reversed(tb) if '/ixai/' in f.filename), None)
+        if site is None:
+            raise
+        viol = Violation(f"{CURRENT_PID[0]}/raised/{type(e).__name__}",
+                         f"the library raised {type(e).__name__}: {e} (at ixai/{site}) on a legal input; choices "
+                         f"{run.choices()[:40]}", {})
     finally:
         scripted.set_active(prev)
     if check_ownership and scripted.generator_state() != before:
@@ -248,5 +277,3 @@ def pmap(func, tasks, chunksize=1):
     return res
 
 
-class HarnessError(Exception):
-    pass
